@@ -263,12 +263,54 @@ def stale_interface(ctx, rng):
         pass
 
 
+def reuse_with_delays(ctx, rng, n):
+    """models with delayed parts, simulated repeatedly on the same Model object in every mode: each run equals the run of a
+    freshly built model from the same seed, and the model's matrices, initial condition and parameters stay as they were."""
+    from bioscrape.types import Model
+    for i in range(n):
+        k, d = rng.choice([0.5, 1.0, 2.0]), rng.choice([0.25, 0.5])
+        dprod = rng.choice([["B"], ["B", "B"], ["A", "B"]])
+        dtype = rng.choice(["fixed", "gaussian", "gamma"])
+        dpar = {"fixed": {"delay": "tau"}, "gaussian": {"mean": "tau", "std": "sd"}, "gamma": {"k": "gk", "theta": "tau"}}[dtype]
+        spec = dict(species=["A", "B", "C"], parameters={"k": k, "d": d, "tau": rng.choice([0.05, 0.3, 1.0]), "sd": 0.05, "gk": 2.0},
+                    reactions=[(["A"], [], "massaction", {"k": "k"}, dtype, [], dprod, dpar), (["B"], ["C"], "massaction", {"k": "d"}), ([], ["A"], "massaction", {"k": "d"})],
+                    initial_condition_dict={"A": rng.randint(5, 30), "B": 0, "C": 0})
+        case = {"reuse_with_delays": {k_: (v if not isinstance(v, list) else [list(x) if isinstance(x, tuple) else x for x in v]) for k_, v in spec.items()}}
+        ctx.begin_case(case)
+        M = Model(**spec)
+        before = (np.array(M.py_get_update_array()).tolist(), np.array(M.py_get_delay_update_array()).tolist(),
+                  dict(M.get_species_dictionary()), dict(zip(M.get_param_list(), M.get_parameter_values())))
+        T = np.linspace(0, 2.0, 9)
+        seed = rng.randint(1, 10**6)
+        order = ["ssa", "det", "delay", "ssa", "volume", "delayvolume", "safe", "ssa", "det"]
+        for mode in order:
+            a = simulate_by_name(M, T, seed, mode)
+            b = simulate_by_name(Model(**spec), T, seed, mode)
+            ctx.evaluated()
+            for c in a:
+                ok = np.allclose(a[c], b[c], rtol=1e-6, atol=1e-9, equal_nan=True) if mode == "det" else np.array_equal(a[c], b[c])
+                if not ok:
+                    ctx.violation("history-dependence/reuse/" + mode, "a model with a delayed reaction, simulated before in other modes, gives different %s output "
+                                  "(column %s) from a freshly built model with the same seed" % (mode, c),
+                                  dict(case, mode=mode, earlier=order[:order.index(mode)], column=c, reused=a[c].tolist(), fresh=b[c].tolist()))
+                    return
+        after = (np.array(M.py_get_update_array()).tolist(), np.array(M.py_get_delay_update_array()).tolist(),
+                 dict(M.get_species_dictionary()), dict(zip(M.get_param_list(), M.get_parameter_values())))
+        if after != before:
+            ctx.violation("simulation-changed-model/matrices", "simulating changed the model's stoichiometric matrices, initial condition or parameters",
+                          dict(case, before=str(before)[:400], after=str(after)[:400]))
+            return
+        ctx.count("reuse_with_delays")
+        ctx.nontriv(("reuse", dtype, len(dprod)))
+
+
 def run(ctx):
     rng = ctx.rng
     n = 120 if ctx.quick() else 3000
     for i in range(n):
         history_case(ctx, gen_history(rng, 25 if ctx.quick() else 40))
     stale_interface(ctx, rng)
+    reuse_with_delays(ctx, rng, 12 if ctx.quick() else 200)
 
 
 def replay(ctx, obj):
